@@ -44,6 +44,8 @@ type runConfig struct {
 	Out             string
 	Samples         int
 	Trace           bool
+	Batch           bool
+	InitPrefix      string
 	Replay          string // JSON file with decisions to follow once (debug)
 	ExtraOverlay    map[string]string
 	SolverLog       string
@@ -181,14 +183,19 @@ type loaded struct {
 	prog    *ssa.Program
 	pkgs    []*packages.Package
 	target  *ssa.Package
+	targets []*ssa.Package
 	sizes   types.Sizes
 	loadDur time.Duration
 	built   map[string]bool
+	loadErrs []string
 }
 
 func loadProgram(cfg *runConfig) (*loaded, error) {
 	t0 := time.Now()
 	overlay := map[string][]byte{}
+	if cfg.Batch {
+		return loadBatch(cfg, t0)
+	}
 	pcfg0 := &packages.Config{Mode: packages.NeedName | packages.NeedFiles, Dir: cfg.Repo, Env: append(os.Environ(), "GOFLAGS=-mod=mod", "GOPROXY=off", "GOSUMDB=off")}
 	meta, err := packages.Load(pcfg0, cfg.Pkg)
 	if err != nil || len(meta) == 0 || len(meta[0].GoFiles) == 0 {
@@ -460,6 +467,128 @@ func explore(ld *loaded, cfg *runConfig) *runResult {
 	return res
 }
 
+// loadBatch loads every package matching cfg.Pkg (a pattern) below cfg.Repo.
+func loadBatch(cfg *runConfig, t0 time.Time) (*loaded, error) {
+	pcfg := &packages.Config{
+		Mode:       packages.LoadAllSyntax,
+		Dir:        cfg.Repo,
+		BuildFlags: []string{"-tags=" + cfg.Tags},
+		Env:        append(os.Environ(), "GOFLAGS=-mod=mod", "GOPROXY=off", "GOSUMDB=off"),
+	}
+	pkgs, err := packages.Load(pcfg, strings.Split(cfg.Pkg, ",")...)
+	if err != nil {
+		return nil, err
+	}
+	var errs []string
+	bad := map[string]bool{}
+	for _, p := range pkgs {
+		for _, e := range p.Errors {
+			errs = append(errs, e.Error())
+			bad[p.PkgPath] = true
+		}
+	}
+	prog, spkgs := ssautil.AllPackages(pkgs, ssa.InstantiateGenerics)
+	ld := &loaded{prog: prog, pkgs: pkgs, built: map[string]bool{}, loadErrs: errs}
+	ld.sizes = types.SizesFor("gc", "amd64")
+	for i, sp := range spkgs {
+		if sp == nil || bad[pkgs[i].PkgPath] {
+			continue
+		}
+		sp.Build()
+		ld.built[sp.Pkg.Path()] = true
+		ld.targets = append(ld.targets, sp)
+	}
+	for _, ip := range cfg.Interp {
+		for _, sp := range prog.AllPackages() {
+			if sp.Pkg.Path() == ip {
+				sp.Build()
+				ld.built[ip] = true
+			}
+		}
+	}
+	ld.loadDur = time.Since(t0)
+	return ld, nil
+}
+
+// corpusInits lists, in dependency order, the packages of the target's own
+// module that must be initialised before the target (package-level values).
+func corpusInits(ld *loaded, target *ssa.Package, prefix string) []string {
+	var order []string
+	seen := map[string]bool{}
+	var visit func(p *types.Package)
+	visit = func(p *types.Package) {
+		if seen[p.Path()] || !strings.HasPrefix(p.Path(), prefix) {
+			return
+		}
+		seen[p.Path()] = true
+		for _, imp := range p.Imports() {
+			visit(imp)
+		}
+		order = append(order, p.Path())
+	}
+	visit(target.Pkg)
+	return order
+}
+
+type batchResult struct {
+	Results  []*runResult `json:"results"`
+	LoadErrs []string     `json:"load_errors"`
+	LoadS    float64      `json:"load_s"`
+	WallS    float64      `json:"wall_s"`
+}
+
+func runBatch(ld *loaded, cfg *runConfig) *batchResult {
+	type job struct {
+		target *ssa.Package
+		entry  string
+	}
+	var jobs []job
+	for _, t := range ld.targets {
+		var names []string
+		for name, m := range t.Members {
+			if _, ok := m.(*ssa.Function); ok && strings.HasPrefix(name, cfg.Entry) {
+				names = append(names, name)
+			}
+		}
+		sort.Strings(names)
+		for _, n := range names {
+			jobs = append(jobs, job{t, n})
+		}
+	}
+	t0 := time.Now()
+	out := &batchResult{LoadErrs: ld.loadErrs, LoadS: ld.loadDur.Seconds()}
+	results := make([]*runResult, len(jobs))
+	var wg sync.WaitGroup
+	ch := make(chan int)
+	for w := 0; w < cfg.Workers; w++ {
+		wg.Add(1)
+		go func() {
+			defer wg.Done()
+			for ji := range ch {
+				j := jobs[ji]
+				c := *cfg
+				c.Workers = 1
+				c.Entry = j.entry
+				c.InitPkgs = corpusInits(ld, j.target, cfg.InitPrefix)
+				l2 := *ld
+				l2.target = j.target
+				r := explore(&l2, &c)
+				r.Pkg = j.target.Pkg.Path()
+				r.Functions = nil
+				results[ji] = r
+			}
+		}()
+	}
+	for ji := range jobs {
+		ch <- ji
+	}
+	close(ch)
+	wg.Wait()
+	out.Results = results
+	out.WallS = time.Since(t0).Seconds()
+	return out
+}
+
 type multiFlag []string
 
 func (m *multiFlag) String() string     { return strings.Join(*m, ",") }
@@ -491,6 +620,8 @@ func main() {
 	flag.StringVar(&cfg.Out, "out", "", "result JSON path")
 	flag.IntVar(&cfg.Samples, "samples", 5, "number of path models to record as samples")
 	flag.BoolVar(&cfg.Trace, "trace", false, "trace interpreter")
+	flag.BoolVar(&cfg.Batch, "batch", false, "batch mode: -pkg is a pattern list below -repo, every function whose name starts with -entry is explored (one worker each)")
+	flag.StringVar(&cfg.InitPrefix, "init-prefix", "example.com/corpus", "batch mode: packages with this path prefix get their init interpreted")
 	flag.StringVar(&cfg.SolverLog, "solver-log", "", "write solver dialogue to this path prefix")
 	flag.Parse()
 	cfg.OverlayDirs = overlays
@@ -535,6 +666,23 @@ func main() {
 	}
 	registerHarnessIntrinsics(ld)
 	registerModels(ld)
+	if cfg.Batch {
+		br := runBatch(ld, cfg)
+		b, _ := json.MarshalIndent(br, "", " ")
+		if cfg.Out != "" {
+			os.WriteFile(cfg.Out, b, 0644)
+		} else {
+			os.Stdout.Write(b)
+		}
+		nv, ni, np := 0, 0, 0
+		for _, r := range br.Results {
+			nv += len(r.Violations)
+			ni += len(r.Inconclusive)
+			np += r.Paths
+		}
+		fmt.Fprintf(os.Stderr, "gosym batch: drivers=%d paths=%d violations=%d inconclusive=%d load_errors=%d wall=%.1fs\n", len(br.Results), np, nv, ni, len(br.LoadErrs), br.WallS)
+		return
+	}
 	res := explore(ld, cfg)
 	write(res)
 	fmt.Fprintf(os.Stderr, "gosym %s: paths=%d ok=%d pruned=%d violations=%d inconclusive=%d asserts=%d queries=%d wall=%.1fs\n",
